@@ -335,13 +335,35 @@ def impl_code(a):
 
 def canon_code(o):
     if isinstance(o, dict) and isinstance(o.get("ok"), dict):
-        return {"ok": {"text": o["ok"]["text"], "outcome": o["ok"]["outcome"]}}
+        out = {"text": o["ok"]["text"], "outcome": o["ok"]["outcome"]}
+        if "hyps" in o["ok"]:
+            out["hyps"] = o["ok"]["hyps"]
+        return {"ok": out}
     return o
 
 
+STATS = {"cases": 0, "wf": 0, "claimed": 0, "claimed_equal": 0, "declined": 0}
+
+
 def compare_code(mo, io, a):
+    """text must match exactly; the outcome must match unless the model
+    declines; every input must be well-formed for the model (it was built from
+    real classes); and wherever the hypotheses of Props.C18.code_rt_partial
+    hold, the real outcome must be 'equal' (the theorem's claim, checked on the
+    implementation)."""
     if "ok" not in mo or "ok" not in io:
         return mo == io
+    h = mo["ok"].get("hyps", {})
+    STATS["cases"] += 1
+    STATS["wf"] += bool(h.get("wf"))
+    STATS["declined"] += mo["ok"]["outcome"] == "unmodelled"
+    if not h.get("wf"):
+        return False
+    if all(h.get(k) for k in ("wf", "dom", "clean", "imports")):
+        STATS["claimed"] += 1
+        STATS["claimed_equal"] += io["ok"]["outcome"] == "equal"
+        if io["ok"]["outcome"] != "equal" or mo["ok"]["outcome"] != "equal":
+            return False
     if mo["ok"]["text"] != io["ok"]["text"]:
         return False
     return mo["ok"]["outcome"] in ("unmodelled", io["ok"]["outcome"])
@@ -1129,12 +1151,24 @@ FINDINGS = {
     "C18-import-name-clash": finding_clash,
 }
 
-RULE = (
+_RULE = (
     "hand-picked cases (every repr_object/literal_value/build_imports branch, each defect, cross-type default elision), "
     "real fixture objects (books, generics), bounded-exhaustive default x value table and container shapes, then seeded random "
     "worlds (nested classes/enums, two modules, frozen) x random instances; distinct = distinct canonical (op,args); "
     "non-trivial = the value is a model instance or a collection"
 )
+
+
+def __getattr__(name):
+    """`RULE` is read by the framework after the correspondence ran: complete it
+    with this run's counters (PEP 562 module attribute)."""
+    if name == "RULE":
+        return _RULE + (
+            f"; this run: {STATS['cases']} c18.code cases, {STATS['wf']} well-formed for the model, model declined "
+            f"(unmodelled) on {STATS['declined']}, hypotheses of code_rt_partial held on {STATS['claimed']} of them and the "
+            f"real outcome was 'equal' on {STATS['claimed_equal']} of those"
+        )
+    raise AttributeError(name)
 
 LEVEL_TEXT = (
     "Lean theorems for all worlds and all values at AST level: the expression the serializer emits, evaluated in the namespace "
